@@ -113,8 +113,8 @@ def cases(tier, seed):
                 cs.append({'scen': 'c18_unary_args', 's': {'what': 'apply_mask_cols', 'd': d, 'B': 3, 'k': k, 'class_check': False}})
     # wrong argument types
     table = {
-        'add': ('str', 'none', 'list', 'dict', 'dense', 'vec', 'col'), 'radd': ('str', 'none', 'list'), 'sub': ('str', 'none', 'list', 'dense', 'vec', 'col'), 'mul': ('str', 'none', 'list', 'dict', 'dense', 'vec', 'col'),
-        'matmul': ('str', 'none', 'list'), 'truediv': ('str', 'none', 'list', 'dense', 'vec', 'col'), 'kron': ('str', 'list', 'dense', 'none'), 'pow': ('str', 'list', 'dense'),
+        'add': ('str', 'none', 'list', 'dict', 'dense', 'vec', 'col', 'row', 'slab', 'slab4'), 'radd': ('str', 'none', 'list'), 'sub': ('str', 'none', 'list', 'dense', 'vec', 'col', 'row', 'slab', 'slab4'), 'mul': ('str', 'none', 'list', 'dict', 'dense', 'vec', 'col', 'row', 'slab', 'slab4'),
+        'matmul': ('str', 'none', 'list'), 'truediv': ('str', 'none', 'list', 'dense', 'vec', 'col', 'row', 'slab', 'slab4'), 'kron': ('str', 'list', 'dense', 'none'), 'pow': ('str', 'list', 'dense'),
         'dot': ('str', 'none', 'dense'), 'dot_first': ('str', 'none', 'dense'), 'bilinear': ('str', 'none', 'dense'), 'diag': ('str', 'none', 'dense', 'list'),
         'permute': ('str', 'none', 'dense'), 'save': ('str', 'none', 'dense', 'list'), 'fast_matvec': ('str', 'none', 'dense'), 'zeros': ('str', 'none'),
         'ones': ('str', 'none'), 'sum': ('str', 'dict'), 'getitem': ('str', 'none', 'list', 'dict'), 'mprod': ('str', 'none', 'list'), 'ctor': ('str', 'dict'),
